@@ -16,6 +16,7 @@ import (
 	"fmt"
 	"math"
 	"math/rand"
+	"reflect"
 	"sort"
 	"strings"
 
@@ -24,6 +25,7 @@ import (
 
 	sdk "github.com/cosmos/cosmos-sdk/types"
 
+	"github.com/irismod/service/keeper"
 	"github.com/irismod/service/types"
 )
 
@@ -257,6 +259,9 @@ func staticC18(a *App, m *Mon, seed int64, nRandom int) {
 		}
 	}
 	provs = append(provs, sdk.AccAddress("stake"), sdk.AccAddress("s"), sdk.AccAddress{0x00}, sdk.AccAddress{0x00, 0x00})
+	// addresses that continue a service NAME: ("ab", P) and ("a", 'b'|P) are the same bytes when a
+	// name and an address are glued together without a separator or a length
+	provs = append(provs, append(sdk.AccAddress("b"), act.SignProv[0]...), append(sdk.AccAddress("0"), act.SignProv[0]...), append(sdk.AccAddress("-b"), act.SignProv[1]...))
 	owners := act.Owners
 	heights := []int64{0, 1, 255, 256, 65536, 1 << 40, math.MaxInt64}
 	ids := ctxIDs
@@ -316,27 +321,53 @@ func staticC18(a *App, m *Mon, seed int64, nRandom int) {
 	m.hit("C18", "keys-distinct", fmt.Sprintf("keys%d", len(keyOwner)/1000))
 
 	// ---------- (c) scans as the module performs them ----------
-	scanC18(a, m, sc, rng, names[:8], provs, owners, act)
+	scanC18(a, m, sc, rng, names[:8], provs, owners, act, false)
+	// the same universe written the way a genesis import writes it (SetServiceBindingForGenesis
+	// builds the ownership indexes and the price terms itself), and the genesis validated
+	scanC18(a, m, sc, rng, names[:8], provs, owners, act, true)
 }
 
-func scanC18(a *App, m *Mon, sc *StepCtx, rng *rand.Rand, names []string, provs []sdk.AccAddress, owners []sdk.AccAddress, act *Actors) {
+func scanC18(a *App, m *Mon, sc *StepCtx, rng *rand.Rand, names []string, provs []sdk.AccAddress, owners []sdk.AccAddress, act *Actors, viaGenesis bool) {
 	k := a.k
 	ctx, _ := a.baseCtx.CacheContext()
 	a.k.SetParams(ctx, types.DefaultParams())
 	// every provider gets an owner; every (name, provider) a binding
+	var genBindings []types.ServiceBinding
 	ownerOf := map[string]sdk.AccAddress{}
 	for i, p := range provs {
 		o := owners[i%len(owners)]
 		ownerOf[hexs(p)] = o
-		k.SetOwner(ctx, p, o)
-		k.SetOwnerProvider(ctx, o, p)
+		if !viaGenesis {
+			k.SetOwner(ctx, p, o)
+			k.SetOwnerProvider(ctx, o, p)
+		}
 		k.SetEarnedFees(ctx, p, sdk.NewCoins(sdk.NewCoin(denom, sdk.NewInt(int64(1000+i)))))
 	}
 	for _, n := range names {
 		for _, p := range provs {
 			b := types.NewServiceBinding(n, p, coins(10), `{"price":"1stake"}`, 1, "{}", true, genesisTime, ownerOf[hexs(p)])
+			if viaGenesis {
+				genBindings = append(genBindings, b)
+				if err := k.SetServiceBindingForGenesis(ctx, b); err != nil {
+					m.fail(sc, "C18", "scan-exact", "import-refuses-binding", "import of binding (%s, %x) of the key universe fails: %v", n, []byte(p), err)
+				}
+				continue
+			}
 			k.SetServiceBinding(ctx, b)
 			k.SetOwnerServiceBinding(ctx, b)
+		}
+	}
+	if viaGenesis {
+		// a genesis made of these subjects is valid: validation must not take two of them for one
+		var defs []types.ServiceDefinition
+		for _, n := range names {
+			defs = append(defs, types.NewServiceDefinition(n, "d", nil, owners[0], "a", goodSchemas))
+		}
+		gs := types.NewGenesisState(types.DefaultParams(), defs, genBindings, map[string][]byte{}, map[string]*types.RequestContext{})
+		m.eval("C18")
+		m.hit("C18", "keys-distinct", "genesis-validation")
+		if err := types.ValidateGenesis(*gs); err != nil {
+			m.fail(sc, "C18", "keys-distinct", "genesis-validation", "a genesis holding one binding per (service, provider) of the key universe - names that are prefixes of each other, provider addresses of every length - is refused: %v", err)
 		}
 	}
 	for i, o := range owners {
@@ -416,6 +447,9 @@ func scanC18(a *App, m *Mon, sc *StepCtx, rng *rand.Rand, names []string, provs 
 		return
 	}
 	cmp := func(rule, subject string, got, want []string) {
+		if viaGenesis {
+			rule += "@import"
+		}
 		sort.Strings(got)
 		sort.Strings(want)
 		m.eval("C18")
@@ -507,10 +541,10 @@ func scanC18(a *App, m *Mon, sc *StepCtx, rng *rand.Rand, names []string, provs 
 	}
 	for _, h := range append(qHeights, 0, 2, 254, 511) {
 		var got []string
-		k.IterateExpiredRequestBatch(ctx, h, func(id tmbytes.HexBytes, _ types.RequestContext) { got = append(got, hexs(id)) })
+		callQueueScan(k, "IterateExpiredRequestBatch", ctx, h, func(id tmbytes.HexBytes) { got = append(got, hexs(id)) })
 		cmp("expiry-queue-of-height", fmt.Sprint(h), got, append([]string(nil), expAt[h]...))
 		got = nil
-		k.IterateNewRequestBatch(ctx, h, func(id tmbytes.HexBytes, _ types.RequestContext) { got = append(got, hexs(id)) })
+		callQueueScan(k, "IterateNewRequestBatch", ctx, h, func(id tmbytes.HexBytes) { got = append(got, hexs(id)) })
 		cmp("start-queue-of-height", fmt.Sprint(h), got, append([]string(nil), newAt[h]...))
 	}
 	// earnings of a provider: read, then delete and verify nobody else lost anything
@@ -547,4 +581,30 @@ func scanC18(a *App, m *Mon, sc *StepCtx, rng *rand.Rand, names []string, provs 
 		}
 	}
 	_ = binary.BigEndian
+}
+
+// callQueueScan calls one of the keeper's two queue scans by name, through reflection, so that
+// the harness keeps compiling when the shape of the visitor changes (a visitor that returns
+// "stop", say): the visitor built here reports every context ID it is handed and returns zero
+// values.
+func callQueueScan(k keeper.Keeper, method string, ctx sdk.Context, h int64, seen func(id tmbytes.HexBytes)) {
+	mv := reflect.ValueOf(k).MethodByName(method)
+	if !mv.IsValid() || mv.Type().NumIn() != 3 || mv.Type().In(2).Kind() != reflect.Func {
+		panic("harness: keeper." + method + " has an unexpected shape")
+	}
+	ft := mv.Type().In(2)
+	visitor := reflect.MakeFunc(ft, func(args []reflect.Value) []reflect.Value {
+		for _, a := range args {
+			if id, ok := a.Interface().(tmbytes.HexBytes); ok {
+				seen(id)
+				break
+			}
+		}
+		out := make([]reflect.Value, ft.NumOut())
+		for i := range out {
+			out[i] = reflect.Zero(ft.Out(i))
+		}
+		return out
+	})
+	mv.Call([]reflect.Value{reflect.ValueOf(ctx), reflect.ValueOf(h), visitor})
 }
